@@ -56,3 +56,13 @@ reg('C07', 'views', 'rule_ioerr')
 reg('C13', 'views', 'rule_deleg')
 # ---- C10 (content views forwarded)
 reg('C10', 'views', 'rule_deleg')
+
+# ---- C19
+reg('C19', 'unsafety', 'rule_unsafe_sites', ('dev', 'release'))
+reg('C19', 'codec', 'rule_alphabet')
+reg('C19', 'caches', 'rule_writeonce')
+reg('C19', 'unsafety', 'rule_no_unsafe_sync')
+reg('C19', 'witnesses', 'rule_w_unchecked')
+reg('C19', 'witnesses', 'rule_w_mut')
+# ---- C18 (census of unsafe impls)
+reg('C18', 'unsafety', 'rule_no_unsafe_sync')
